@@ -33,7 +33,8 @@ import c15_calls  # noqa: E402
 import c15_extract  # noqa: E402
 
 PID = "C15"
-PROPS = ["PfModel.Props.C15", "PfModel.Props.C15Keys", "PfModel.Props.C15Sort", "PfModel.Props.C15Pandas", "PfModel.Props.C15Calls", "PfModel.Props.C15Src"]
+PROPS = ["PfModel.Props.C15", "PfModel.Props.C15Keys", "PfModel.Props.C15Sort", "PfModel.Props.C15Pandas", "PfModel.Props.C15Calls", "PfModel.Props.C15Sub", "PfModel.Props.C15SubInj",
+         "PfModel.Props.C15Def", "PfModel.Props.C15Src"]
 GENERATED = True          # Props/C15Src.lean is proved against lean/PfModel/Generated/C15Facts.lean, regenerated from the source on every run
 DRIVER = "C15"
 RULE = ("values from one seeded recursive generator (depth <= 3) over None/bool/int/float(half-integers, inf, nan, -0.0)/str/bytes/"
@@ -53,7 +54,11 @@ RULE = ("values from one seeded recursive generator (depth <= 3) over None/bool/
         "another type, rows / columns / only labels / only cells moved, repeated labels, renamed, as dict / list / one-column frame), each "
         "top-level one compared with seriesKey / frameKey; memoized functions with *args / **kwargs / an optional parameter called with "
         "base calls and their call look-alikes (the same leaves laid out differently over positionals and keywords), the key memoize "
-        "really hands to its cache recorded by a SimpleCache subclass")
+        "really hands to its cache recorded by a SimpleCache subclass. Round 9: a subclass batch per run — instances of user subclasses "
+        "that override nothing (namedtuples of 1-3 fields, two with the same fields; subclasses of tuple, list (two), frozenset, set, dict, "
+        "OrderedDict, deque; MaskedArray without masked elements) bare and nested, with hashable and with unhashable content, and their "
+        "look-alikes (the builtin-class copy, another subclass of the same base, content changed) — every value holding one compared with "
+        "wkey (Model/HashableSub.lean); float ndarrays and array('d') with -0.0 next to 0.0")
 ASSUMPTIONS = ["int, float and bool of equal value are one model value (Python == and hash do not distinguish them; the statement is read "
                "with Python's ==)", "floats are half-integers, inf or nan; nan equality is object identity (fresh objects for ndarray data)",
                "md5 of the cloudpickle bytes is treated as collision-free (opaque digest in the model); pandas objects and fallback "
@@ -66,7 +71,9 @@ ASSUMPTIONS = ["int, float and bool of equal value are one model value (Python =
                "'effective arguments' of a call are what inspect.Signature.bind + apply_defaults computes (bindArgs in the model, "
                "compared with inspect on every run); positional-or-keyword parameters, optionally followed by *args / **kwargs (bindSig)",
                "a Series / DataFrame is its labels (index, columns, name) and its cells, compared with == (dtype, Index class are not part of "
-               "the value); pandas `tolist()` is trusted to read labels and cells for the model's serieskeys / framekeys requests"]
+               "the value); pandas `tolist()` is trusted to read labels and cells for the model's serieskeys / framekeys requests",
+               "modelled user subclasses override nothing (__eq__, __hash__, __iter__, items are those of the builtin base); a hashable "
+               "instance inside a key is the model's base value (== and hash do not see the class)"]
 
 HARNESS = Path(__file__).resolve().parent.parent
 M = V.MARKER
@@ -171,13 +178,13 @@ def g_value(rng, d=0):  # noqa: C901, PLR0911, PLR0912
         return ["bytearray", rng.choice(BYTES + [[1, 2], [2, 1]])]
     if kind == "array":
         tc = rng.choice("bilqd")
-        return ["array", tc, [rng.choice([0, 1, 2, 3]) for _ in range(n)]]
+        return ["array", tc, [rng.choice([0, 1, 2, 3] if tc != "d" else [0, 1, 2, 0.5, -0.0]) for _ in range(n)]]
     shape = rng.choice([[0], [1], [2], [3], [1, 2], [2, 1], [2, 2], [4], [1, 1, 2]])
     size = 1
     for s in shape:
         size *= s
     dtype = rng.choice(["<i8", "<i4", "<f8", "<f4", "|b1", "|u1"])
-    pool = [0, 1, 2, 3] if dtype != "<f8" else [0, 1, 2, 0.5, "nan", "inf"]
+    pool = [0, 1, 2, 3] if dtype not in ("<f8", "<f4") else ([0, 1, 2, 0.5, "nan", "inf", -0.0, -0.0] if dtype == "<f8" else [0, 1, 2, 0.5, -0.0])
     return ["nd", shape, dtype, [rng.choice(pool) if rng.random() < 0.3 else rng.choice([0, 1]) for _ in range(size)]]
 
 
@@ -358,9 +365,55 @@ def perturb_pandas(rng, s):  # noqa: PLR0911
     return s
 
 
+# ---- user subclasses (round 9): ["sub", class name, spec of the builtin-class value]
+def resub(rng, name, inner):
+    """`inner` as an instance of the class `name`, or of another class that can hold it (namedtuples have a fixed number of fields)"""
+    names = V.SUB_FOR.get(inner[0])
+    if not names:
+        return inner
+    if name not in names:
+        name = rng.choice(names)
+    if inner[0] == "tuple":
+        ok = ["SubTuple"] + [n for n in names if n.startswith("NT") and n[2] == str(len(inner[1]))]
+        if name not in ok:
+            name = rng.choice(ok)
+    return ["sub", name, inner]
+
+
+def g_sub(rng):  # noqa: PLR0911
+    kind = rng.choice(["tuple", "tuple", "tuple", "list", "list", "fset", "set", "dict", "odict", "deque"])
+    if kind == "tuple":
+        n = rng.choice([0, 1, 2, 2, 2, 3])
+        hashable_content = rng.random() < 0.55            # a namedtuple of hashable fields is returned as it is; one holding a list is tagged
+        inner = ["tuple", [g_hashable(rng, 2) if hashable_content or rng.random() < 0.5 else g_value(rng, 2) for _ in range(n)]]
+    elif kind == "list":
+        inner = ["list", [g_value(rng, 2) for _ in range(rng.randint(0, 3))]]
+    elif kind in ("fset", "set"):
+        inner = [kind, g_family(rng, rng.randint(0, 3))]
+    elif kind in ("dict", "odict"):
+        inner = [kind, g_items(rng, 1, rng.randint(0, 3))]
+    else:
+        inner = ["deque", rng.choice([None, 3]), [g_value(rng, 2) for _ in range(rng.randint(0, 2))]]
+    s = resub(rng, "", inner)
+    r = rng.random()
+    if r < 0.5:
+        return s
+    if r < 0.62:
+        return ["list", [s]]
+    if r < 0.74:
+        return ["tuple", [s, ["int", rng.choice(INTS)]]]
+    if r < 0.84:
+        return ["dict", [[["str", "k"], s]]]
+    if r < 0.92:
+        return resub(rng, "", ["list", [s, g_atom(rng)]])
+    return ["ma", [2], rng.choice(["<i8", "<f8"]), [rng.choice([0, 1, 2]), 1], [0, 0]]
+
+
 def g_outside(rng):  # noqa: PLR0911
     """The stream outside the modelled fragment / outside what the generator considers well-formed."""
-    r = rng.randrange(18)
+    r = rng.randrange(20)
+    if r in (18, 19):
+        return g_sub(rng)
     if r == 14:
         return ["ma", [3], "<i8", [1, 2, 3], [0, rng.randrange(2), 0]]
     if r == 15:
@@ -403,6 +456,8 @@ MAP = ("dict", "odict", "subdict", "counter")
 
 def kids(s):
     t = s[0]
+    if t == "sub":
+        return kids(s[2])
     if t in SEQ or t in ("objarr",):
         return s[1]
     if t == "deque":
@@ -419,6 +474,8 @@ def kids(s):
 def with_kids(s, new):
     s = copy.deepcopy(s)
     t = s[0]
+    if t == "sub":
+        return ["sub", s[1], with_kids(s[2], new)]
     if t in SEQ or t == "objarr":
         s[1] = new
     elif t in ("deque", "obj"):
@@ -480,6 +537,15 @@ def retype(rng, s):  # noqa: C901, PLR0911, PLR0912
     t = s[0]
     if t in ("series", "df"):
         return retype_pandas(rng, s)
+    if t == "sub":                                          # the builtin-class copy / another subclass of the same base / the base retyped
+        r = rng.random()
+        if r < 0.45:
+            return s[2]
+        if r < 0.85:
+            return resub(rng, rng.choice(V.SUB_FOR[s[2][0]]), s[2])
+        return resub(rng, s[1], retype(rng, s[2]))
+    if t in V.SUB_FOR and rng.random() < 0.12:              # the same content as an instance of a user subclass
+        return resub(rng, "", s)
     if t in ("tuple", "list", "sublist"):
         to = rng.choice(["tuple", "list", "deque", "set", "sublist", "fset"])
         if to == "deque":
@@ -560,6 +626,8 @@ def permute(rng, s):
     t = s[0]
     if t in ("series", "df"):
         return permute_pandas(rng, s)
+    if t == "sub":
+        return ["sub", s[1], permute(rng, s[2])]
     if t in ("set", "fset", "dict", "odict", "subdict", "counter"):
         rng.shuffle(s[1])
     elif t == "ddict":
@@ -576,6 +644,8 @@ def perturb(rng, s):
     t = s[0]
     if t in ("series", "df"):
         return perturb_pandas(rng, s)
+    if t == "sub":
+        return resub(rng, s[1], perturb(rng, s[2]))
     if t in ("set", "fset"):
         fam = g_family(rng, 1)
         return [t, (s[1] + fam) if rng.random() < 0.5 or not s[1] else s[1][1:]]
@@ -596,7 +666,11 @@ def perturb(rng, s):
         return ["deque", s[1], s[2] + [g_value(rng, 2)]]
     if t == "nd" and s[3]:
         d = copy.deepcopy(s)
-        d[3][rng.randrange(len(d[3]))] = rng.choice([0, 1, 2, 3])
+        i = rng.randrange(len(d[3]))
+        if d[2] in ("<f8", "<f4") and d[3][i] == 0 and rng.random() < 0.6:
+            d[3][i] = 0 if str(d[3][i]).startswith("-") else -0.0      # 0.0 <-> -0.0: the same value (==), the key must not change
+        else:
+            d[3][i] = rng.choice([0, 1, 2, 3])
         return d
     if t == "array":
         return ["array", s[1], s[2] + [1]]
@@ -740,13 +814,19 @@ def has_partial_order(obj):
     return any(len(els) >= 2 and any(_partial(e) for e in els) for els in _sorted_collections(obj))
 
 
+def exc_matches(k, err):
+    """the implementation's exception `k` ("TypeError", "TypeError:UFuncTypeError" — numpy's subclass, raised when `sorted` compares a
+    numpy scalar with a str) is the model's error class `err`; UnhashableError (a TypeError subclass too) is a documented answer of its own"""
+    return isinstance(k, str) and (k == err or (k.startswith(err + ":") and k != "TypeError:UnhashableError"))
+
+
 def _specs(case):
     return [case[k] for k in ("a", "b") if case.get(k) is not None]
 
 
 @framework.finding_matcher("c15_unorderable_keys")
 def _m_unorderable(case, params, impl, model):
-    return case.get("kind") == "raise" and case.get("exc") == "TypeError" and has_unorderable(V.build(case["a"]))
+    return case.get("kind") == "raise" and exc_matches(case.get("exc"), "TypeError") and has_unorderable(V.build(case["a"]))
 
 
 @framework.finding_matcher("c15_partial_order_sort")
@@ -786,6 +866,37 @@ def _m_df(case, params, impl, model):
             return False
         differ |= not V.py_same(x, y)
     return differ
+
+
+def _case_pair(case):
+    B = V.Builder()                                      # one builder: ["nan", i] is the same object in both values, as in the batch
+    if case.get("kind") == "map-cache":                  # "a" lists the element values, "i" / "j" are the two that share a result
+        if "i" not in case:
+            return None
+        return B.b(case["a"][case["i"]]), B.b(case["a"][case["j"]])
+    if case.get("b") is None:
+        return None
+    return B.b(case["a"]), B.b(case["b"])
+
+
+@framework.finding_matcher("c15_hashable_subclass_as_is")
+def _m_subclass(case, params, impl, model):
+    """Two different values share a key / a cached result, at least one holds a HASHABLE instance of a tuple / frozenset subclass (it is
+    returned as it is; as a key it compares and hashes as its builtin base), and with every such instance replaced by its builtin
+    copy the two are the same value.  Unhashable subclass instances are never erased: keying them by their base (seeded C15-s4-A)
+    is not matched."""
+    if case.get("kind") not in ("collision", "memo", "memo-call", "pipeline-call", "map-cache", "pipe-key"):
+        return False
+    try:
+        ab = _case_pair(case)
+        if ab is None:
+            return False
+        a, b = ab
+        if not (V.has_hashable_sub(a) or V.has_hashable_sub(b)):
+            return False
+        return not V.py_same(a, b) and V.py_same(V.erase_hashable_sub(a), V.erase_hashable_sub(b))
+    except Exception:  # noqa: BLE001
+        return False
 
 
 @framework.finding_matcher("c15_raw_payload_unhashable")
@@ -851,6 +962,17 @@ CORPUS = [
     ["df", [["int", 0]], [["a", [["int", 1]]], ["a", [["int", 2]]]]], ["df", [["int", 0]], [["a", [["int", 3]]], ["a", [["int", 2]]]]],
     ["df", [["int", 0]], [[["int", 0], [["int", 1]]], [["int", 1], [["int", 2]]]]], ["df", [], []], ["df", [["int", 0]], []],
     ["ts", 0], ["ts", 1],
+    # round 9: subclass instances.  A namedtuple of hashable fields / the tuple (the known finding), bare and nested; unhashable
+    # instances against their builtin copy and against another subclass (seeded C15-s4-A); float arrays that differ in the sign of a zero
+    ["sub", "NT2", ["tuple", [["int", 1], ["int", 2]]]], ["tuple", [["int", 1], ["int", 2]]], ["sub", "NT2b", ["tuple", [["int", 1], ["int", 2]]]],
+    ["sub", "SubTuple", ["tuple", [["int", 1], ["int", 2]]]], ["list", [["sub", "NT2", ["tuple", [["int", 1], ["int", 2]]]]]], ["list", [["tuple", [["int", 1], ["int", 2]]]]],
+    ["sub", "NT2", ["tuple", [L1, ["int", 2]]]], ["tuple", [L1, ["int", 2]]], ["sub", "NT2b", ["tuple", [L1, ["int", 2]]]], ["sub", "SubTuple", ["tuple", [L1, ["int", 2]]]],
+    ["sub", "SubList", L1], ["sub", "SubList2", L1], ["list", [["sub", "SubList", L1]]], ["list", [L1]], ["dict", [[["str", "k"], ["sub", "SubList", L1]]]],
+    ["sub", "SubFset", ["fset", [["int", 1]]]], ["fset", [["int", 1]]], ["sub", "SubSet", ["set", [["int", 1]]]], ["set", [["int", 1]]],
+    ["sub", "SubDict", ["dict", [[["str", "a"], ["int", 1]]]]], ["dict", [[["str", "a"], ["int", 1]]]], ["sub", "SubODict", ["odict", [[["str", "a"], ["int", 1]]]]],
+    ["sub", "SubDeque", ["deque", None, [["int", 1]]]], ["sub", "SubTuple", FORGED_L1], ["sub", "NT3", FORGED_L1],
+    ["list", [["set", [["npscalar", "float64", 1], ["bool", False], ["str", "ba"]]]]],       # DF-20 (a) with a numpy scalar: sorted raises numpy's TypeError subclass
+    ["nd", [2], "<f8", [0, 1]], ["nd", [2], "<f8", [-0.0, 1]], ["nd", [2], "<f4", [-0.0, 1]], ["array", "d", [-0.0]], ["array", "d", [0]],
     *EMPTIES, *ONES, ["list", [["list", []]]], ["list", [["tuple", []]]], ["tuple", [["list", []]]], ["list", [["dict", []]]], ["list", [["set", []]]],
 ]
 
@@ -920,6 +1042,24 @@ class Batch:
                     kj = None
             self.kpv.append(kj)
         self.model_idx = [i for i, j in enumerate(self.pv) if j is not None]
+        # values holding an instance of a modelled user subclass (Model/HashableSub.lean), and every 5th plain value (wkey = key there)
+        self.wenc = V.WideEncoder()
+        self.wide_idx, self.wv, self.wkj = [], {}, {}
+        for i, (v, (st, k)) in enumerate(zip(self.vals, self.keys)):
+            before = self.wenc.marks
+            try:
+                j = self.wenc.enc(v)
+            except Exception:  # noqa: BLE001   (OutOfModel and whatever a strange object raises)
+                continue
+            if self.wenc.marks == before and i % 5:
+                continue
+            self.wide_idx.append(i)
+            self.wv[i] = (j, self.wenc.marks > before)
+            if st == "ok":
+                try:
+                    self.wkj[i] = self.wenc.enc_key(k)
+                except Exception:  # noqa: BLE001
+                    pass
         # top-level Series / DataFrames inside the fragment of Model/HashablePandas.lean: (index into the batch, entry, request)
         self.pd_idx = []
         for i, v in enumerate(self.vals):
@@ -934,6 +1074,9 @@ class Batch:
 
     def pandas_requests(self):
         return [{"m": e, "a": {"calls": [r for _, e2, r in self.pd_idx if e2 == e]}} for e in ("serieskeys", "framekeys")]
+
+    def wide_request(self):
+        return {"m": "wkeys", "a": {"values": [self.wv[i][0] for i in self.wide_idx], "bases": V.sub_bases()}}
 
     def requests(self):
         return [{"m": "keys", "a": {"values": [self.pv[i] for i in self.model_idx]}},
@@ -1015,7 +1158,7 @@ def check_batch(ctx, b: Batch, resp, resp_shuf, child_lines):  # noqa: C901, PLR
         if any(l.startswith(("CHILD-ERROR", "SHOW-ERROR")) for l in lines + [here]):
             ctx.skip("child-could-not-print")
             continue
-        native = b.pv[i] is not None and not _has_opaque(b.pv[i])
+        native = (b.pv[i] is not None and not _has_opaque(b.pv[i])) or (i in b.wv and not _has_opaque(b.wv[i][0]))
         if len({here, *lines}) != 1:
             if native or b.specs[i][0] in ("df", "series") or has_partial_order(b.vals[i]) or has_unorderable(b.vals[i]):
                 ctx.violation({"kind": "cross-process", "a": b.specs[i]}, "the key of a natively handled value differs between interpreters "
@@ -1029,6 +1172,16 @@ def check_batch(ctx, b: Batch, resp, resp_shuf, child_lines):  # noqa: C901, PLR
         r, rs = resp[pos], resp_shuf[pos]
         st, k = b.keys[i]
         spec = b.specs[i]
+        if r.get("wf"):                                    # C15_defined_iff / C15_undefined_iff: a key exists iff `comparable`
+            ctx.count("model:comparable" if r["cmp"] else "model:not-comparable")
+            if r["cmp"] != ("key" in r):
+                ctx.violation({"kind": "model-defined", "a": spec}, "the model's key is defined but the value is not `comparable`, or the "
+                              "reverse (theorem C15_defined_iff does not describe the driver)", found_input=False, item="correspondence:defined-iff", model=r)
+            if st == "exc" and k != "TypeError:UnhashableError" and r["cmp"]:
+                ctx.violation({"kind": "model-defined", "a": spec}, f"implementation raised {k} for a well-formed value whose sorted collections are all "
+                              "strictly ordered (C15_defined_iff)", found_input=False, item="correspondence:defined-iff", impl=k, model=r)
+        else:
+            ctx.count("model:not-wf")
         if "unspec" in r:
             ctx.count("model:unspecified-partial-order")
             continue
@@ -1037,7 +1190,7 @@ def check_batch(ctx, b: Batch, resp, resp_shuf, child_lines):  # noqa: C901, PLR
                           "C15_iteration_order_irrelevant does not describe the driver)", found_input=False, item="correspondence:order", model=[r, rs])
         if "err" in r:
             ctx.count(f"model:err:{r['err']}")
-            if not (st == "exc" and k == r["err"]):
+            if not (st == "exc" and exc_matches(k, r["err"])):
                 ctx.violation({"kind": "model-err", "a": spec}, f"model: {r['err']}, implementation: {st} {str(k)[:80]}", found_input=False,
                               item="correspondence:defined", impl=str(k)[:200], model=r)
             continue
@@ -1071,6 +1224,70 @@ def check_batch(ctx, b: Batch, resp, resp_shuf, child_lines):  # noqa: C901, PLR
                               found_input=False, item="correspondence:equal-values")
 
 
+def check_wide(ctx, b: Batch, resp):
+    """the key of every value that holds an instance of a user subclass against `wkey true` (Model/HashableSub.lean, the function the
+    theorems of Props/C15Sub are about), and: equal model keys <=> the same value once HASHABLE subclass instances are replaced by
+    their builtin copy (C15_sub_hashable_key_eq_iff / C15_sub_root_class)"""
+    groups = collections.defaultdict(list)
+    for pos, i in enumerate(b.wide_idx):
+        r = resp[pos]
+        st, k = b.keys[i]
+        spec = b.specs[i]
+        marked = b.wv[i][1]
+        ctx.count("wide:with-subclass-instance" if marked else "wide:plain")
+        if "unspec" in r:
+            ctx.count("wide:unspecified-partial-order")
+            continue
+        if "err" in r:
+            ctx.count(f"wide:err:{r['err']}")
+            if not (st == "exc" and exc_matches(k, r["err"])):
+                ctx.violation({"kind": "model-err", "a": spec}, f"wide model: {r['err']}, implementation: {st} {str(k)[:80]}", found_input=False,
+                              item="correspondence:wide-defined", impl=str(k)[:200], model=r)
+            continue
+        if st != "ok":
+            ctx.violation({"kind": "model-err", "a": spec}, f"implementation raised {k}, the wide model returns a key", found_input=False,
+                          item="correspondence:wide-defined", impl=k, model=r)
+            continue
+        if not r["subok"]:                                 # the hypothesis of C15_sub_injective, evaluated for every generated value
+            ctx.violation({"kind": "model-key", "a": spec}, "a generated value does not satisfy WV.subOk (one builtin base per user class): the "
+                          "encoder's class table is wrong", found_input=False, item="correspondence:wide-subok", model=r)
+        else:
+            ctx.count("wide:subOk")
+        if marked:
+            ctx.count("wide:returned-as-is(base value)" if r["asis"] else "wide:tagged")
+            ctx.count("wide:key-has-subclass-tag" if not r["core"] else "wide:key-is-core-key-of-base")
+            if not r["basetag"]:
+                ctx.count("wide:differs-from-base-tagged-key")        # (what the seeded change C15-s4-A would return)
+        elif not r["core"] or not r["plain"]:
+            ctx.violation({"kind": "model-key", "a": spec}, "wkey differs from key on a value without subclass instances (C15_sub_conservative "
+                          "does not describe the driver)", found_input=False, item="correspondence:wide-conservative", model=r)
+        if i not in b.wkj or V.dumps(V.norm_fresh(b.wkj[i])) != V.dumps(V.norm_fresh(r["key"])):
+            ctx.violation({"kind": "model-key", "a": spec}, "implementation and wide model (wkey) build different keys (no property clause fails "
+                          "on this input)", found_input=False, item="correspondence:wide-key", impl=repr(k)[:300], model=r["key"])
+        if V.py_same(b.vals[i], b.vals[i]):
+            groups[V.dumps(r["key"])].append(i)
+    erased = {}
+    for g in groups.values():
+        for i in g:
+            try:
+                erased[i] = V.erase_hashable_sub(b.vals[i])
+            except Exception:  # noqa: BLE001   (an object the eraser cannot rebuild: compared as it is)
+                erased[i] = b.vals[i]
+    reps = [g[0] for g in groups.values()]
+    for g in groups.values():
+        for j in g[1:]:
+            if not V.py_same(erased[g[0]], erased[j]):
+                ctx.violation({"kind": "model-collision", "a": b.specs[g[0]], "b": b.specs[j]}, "equal wide-model keys for values that differ after "
+                              "replacing hashable subclass instances by their builtin copy", found_input=False, item="correspondence:wide-injective")
+            elif not V.py_same(b.vals[g[0]], b.vals[j]):
+                ctx.count("wide:model-collision-hashable-subclass(known finding)")
+    for x, i in enumerate(reps):
+        for j in reps[x + 1:]:
+            if V.py_same(b.vals[i], b.vals[j]) and not (uses_fallback(b.vals[i]) or uses_fallback(b.vals[j])):
+                ctx.violation({"kind": "model-split", "a": b.specs[i], "b": b.specs[j]}, "different wide-model keys for the same value",
+                              found_input=False, item="correspondence:wide-equal-values")
+
+
 def check_pandas_model(ctx, b: Batch, resp_series, resp_frames):
     """the key of a Series / DataFrame against `seriesKey` / `frameKey` (the functions the theorems of Props/C15Pandas are about)"""
     it = {"serieskeys": iter(resp_series), "framekeys": iter(resp_frames)}
@@ -1084,7 +1301,7 @@ def check_pandas_model(ctx, b: Batch, resp_series, resp_frames):
             continue
         if "err" in r:
             ctx.count(f"pandas-model:err:{r['err']}")
-            if not (st == "exc" and k == r["err"]):
+            if not (st == "exc" and exc_matches(k, r["err"])):
                 ctx.violation({"kind": "model-err", "a": spec}, f"pandas model: {r['err']}, implementation: {st} {str(k)[:80]}", found_input=False,
                               item="correspondence:pandas-defined", impl=str(k)[:200], model=r)
             continue
@@ -1266,6 +1483,8 @@ def run(ctx):
             batches_specs.append(make_batch(rng, size))
         for _ in range(ctx.n(1, 8)):                           # the pandas family: Series / DataFrames and their look-alikes
             batches_specs.append(make_batch(rng, 150 if ctx.tier == "quick" else 300, outside=0.02, base=g_pandas, p_base=0.8))
+        for _ in range(ctx.n(1, 6)):                           # the subclass family: instances of user subclasses and their look-alikes
+            batches_specs.append(make_batch(rng, 110 if ctx.tier == "quick" else 250, outside=0.02, base=g_sub, p_base=0.75))
         batches = [Batch(ctx, s, rng) for s in batches_specs]
         reqs, memo_meta = [], []
         for b in batches:
@@ -1289,12 +1508,17 @@ def run(ctx):
         pd_pos = len(reqs)
         for b in batches:
             reqs += b.pandas_requests()
+        wide_pos = len(reqs)
+        for b in batches:
+            reqs.append(b.wide_request())
         outs = ctx.lean(reqs)
         children = run_children(batches_specs, tmp)
         for bi, b in enumerate(batches):
             check_batch(ctx, b, outs[2 * bi]["r"], outs[2 * bi + 1]["r"], [c[bi] for c in children])
         for bi, b in enumerate(batches):
             check_pandas_model(ctx, b, outs[pd_pos + 2 * bi]["r"], outs[pd_pos + 2 * bi + 1]["r"])
+        for bi, b in enumerate(batches):
+            check_wide(ctx, b, outs[wide_pos + bi]["r"])
         for pos, hits, specs in memo_meta:
             compare_memo(ctx, outs[pos]["r"], hits, specs)
         for pos, cb in call_meta:
@@ -1370,6 +1594,14 @@ def replay(ctx, case):
         try:
             print("   model:", json.dumps(ctx.lean([{"m": "keys", "a": {"values": [enc.enc(v)]}}])[0]["r"][0])[:600])
         except V.OutOfModel as e:
+            try:                                           # a value holding instances of user subclasses: Model/HashableSub.lean
+                wenc = V.WideEncoder()
+                r = ctx.lean([{"m": "wkeys", "a": {"values": [wenc.enc(v)], "bases": V.sub_bases()}}])[0]["r"][0]
+                same = st == "ok" and "key" in r and V.dumps(V.norm_fresh(wenc.enc_key(k))) == V.dumps(V.norm_fresh(r["key"]))
+                print(f"   wide model (wkey): the same key as the implementation: {same}\n   ", json.dumps(r)[:600])
+                continue
+            except Exception:  # noqa: BLE001
+                pass
             try:                                           # a top-level Series / DataFrame: Model/HashablePandas.lean
                 entry, req = V.enc_pandas(enc, v)
                 r = ctx.lean([{"m": entry, "a": {"calls": [req]}}])[0]["r"][0]
